@@ -708,6 +708,62 @@ func init() {
 		r, err := convert.Convert(a[0], a[1].Type())
 		return valErr(r, err)
 	}, selAny, selAny)
+	defOp("ConvertDerived", "", func(t *taskState, a [3]cty.Value, p [3]int) opRes {
+		// a target derived from the operand's own type (the kinds of conversion that exist: between sequence
+		// kinds, between mapping kinds, to and from the placeholder), for the value itself, a null or an unknown of
+		// its type - conversions of structural types walk, unify and rebuild the shared types they are given
+		ty := a[0].Type()
+		var want cty.Type
+		k := p[0] % 4
+		switch {
+		case ty.IsTupleType():
+			ets := ty.TupleElementTypes()
+			switch {
+			case k == 0 || len(ets) == 0:
+				want = cty.List(cty.DynamicPseudoType)
+			case k == 1:
+				want = cty.Set(cty.DynamicPseudoType)
+			case k == 2:
+				want = cty.List(ets[p[1]%len(ets)])
+			default:
+				want = cty.Tuple(append([]cty.Type{cty.DynamicPseudoType}, ets[1:]...))
+			}
+		case ty.IsObjectType():
+			names := sortedAttrNames(ty)
+			switch {
+			case k == 0 || len(names) == 0:
+				want = cty.Map(cty.DynamicPseudoType)
+			case k == 1:
+				want = cty.Map(ty.AttributeType(names[p[1]%len(names)]))
+			case k == 2:
+				atys := map[string]cty.Type{}
+				for _, n := range names[1:] {
+					atys[n] = ty.AttributeType(n)
+				}
+				atys["opt"] = cty.String
+				want = cty.ObjectWithOptionalAttrs(atys, []string{"opt"})
+			default:
+				want = cty.DynamicPseudoType
+			}
+		case ty.IsListType() || ty.IsSetType():
+			ety := ty.ElementType()
+			want = []cty.Type{cty.Set(ety), cty.List(ety), cty.List(cty.DynamicPseudoType), cty.Tuple([]cty.Type{ety, ety})}[k]
+		case ty.IsMapType():
+			ety := ty.ElementType()
+			want = []cty.Type{cty.Map(cty.DynamicPseudoType), cty.Object(map[string]cty.Type{"a": ety, "k": ety}), cty.Map(cty.String), cty.DynamicPseudoType}[k]
+		default:
+			want = []cty.Type{cty.String, cty.Number, cty.Bool, cty.DynamicPseudoType}[k]
+		}
+		in := a[0]
+		switch p[2] % 4 {
+		case 0:
+			in = cty.NullVal(ty)
+		case 1:
+			in = cty.UnknownVal(ty)
+		}
+		r, err := convert.Convert(in, want)
+		return valErr(r, err)
+	}, selAny)
 	defOp("GetConversion", "", func(t *taskState, a [3]cty.Value, p [3]int) opRes {
 		want := t.w.types[p[0]%len(t.w.types)]
 		var conv convert.Conversion
@@ -964,6 +1020,11 @@ func sampleOfType(w *world, ty cty.Type, k int) cty.Value {
 func c20GenWorld(c *Ctx) *world {
 	w := &world{byKind: map[Kind][]int{}}
 	o := GenOpts{Capsule: true, Marks: true, Unknown: true, Null: true, Refine: true, Collide: c.G(2) == 1, MaxLen: 3}
+	fam := 0
+	if c.G(3) == 0 {
+		fam = 1 + c.G(10) // strings and integers whose set hashes truly collide (collisions.go)
+		o.Fam = fam
+	}
 	nVals := 6 + c.G(26)
 	// a few deliberate families: numbers (several precisions), strings, a collision-prone set, objects with unknown attributes
 	for i := 0; i < nVals; i++ {
@@ -981,6 +1042,26 @@ func c20GenWorld(c *Ctx) *world {
 			t = &TDesc{K: KMap, Elem: tNumber}
 		default:
 			t = genType(c, 2, GenOpts{Capsule: true})
+		}
+		if c.G(12) == 0 {
+			// structures whose members are sequences (or mappings) of different kinds over one element type:
+			// what unification has to reconcile member by member
+			et := []*TDesc{tString, tNumber, tBool}[c.G(3)]
+			seqs := []*TDesc{{K: KList, Elem: et}, {K: KTuple, Elems: []*TDesc{et, et}}, {K: KTuple, Elems: []*TDesc{et}}, {K: KSet, Elem: et}, tDynamic}
+			maps := []*TDesc{{K: KMap, Elem: et}, {K: KObject, Names: []string{"a", "k"}, Elems: []*TDesc{et, et}}, {K: KObject, Names: []string{"zz"}, Elems: []*TDesc{et}}, tDynamic}
+			n := 2 + c.G(3)
+			if c.G(2) == 0 {
+				t = &TDesc{K: KTuple}
+				for j := 0; j < n; j++ {
+					t.Elems = append(t.Elems, seqs[c.G(len(seqs)-1+c.G(2))])
+				}
+			} else {
+				t = &TDesc{K: KObject}
+				for j := 0; j < n; j++ {
+					t.Names = append(t.Names, []string{"a", "b", "c", "k"}[j])
+					t.Elems = append(t.Elems, maps[c.G(len(maps)-1+c.G(2))])
+				}
+			}
 		}
 		d := genValue(c, t, 3, o)
 		if t.K == KSet {
@@ -1035,7 +1116,24 @@ func c20GenWorld(c *Ctx) *world {
 	for i := 0; i < nSets; i++ {
 		var ety cty.Type
 		var members []cty.Value
-		switch c.G(5) {
+		kindOfSet := c.G(5)
+		if fs, fi := familyStrings(fam), familyInts(fam); fam > 0 && fs != nil && fi != nil && c.G(2) == 0 {
+			kindOfSet = -1
+			// members that share one bucket AND are ordered among themselves, added in a drawn order
+			if c.G(2) == 0 {
+				ety = cty.String
+				for _, j := range []int{c.G(4), c.G(4), c.G(4), c.G(4)} {
+					members = append(members, cty.StringVal(fs[j%len(fs)]))
+				}
+			} else {
+				ety = cty.Number
+				for _, j := range []int{c.G(4), c.G(4), c.G(4), c.G(4)} {
+					members = append(members, cty.NumberIntVal(fi[j%len(fi)]))
+				}
+			}
+		}
+		switch kindOfSet {
+		case -1:
 		case 0:
 			ety = cty.Number
 			for _, tx := range []string{"1.00000000001", "1.00000000002", "1.00000000003", "1.000000000012", "2", "3"} {
